@@ -2,10 +2,12 @@ package c19
 
 import (
 	"bytes"
+	"context"
 	"crypto/sha256"
 	"fmt"
 	"sort"
 	"testing"
+	"time"
 
 	"pgregory.net/rapid"
 
@@ -41,6 +43,12 @@ const (
 	reqKnown = iota
 	reqUnknown
 	reqNotB64
+)
+
+const (
+	ctxLive      = iota
+	ctxCancelled // cancelled before the call (client hung up)
+	ctxExpired   // deadline already in the past
 )
 
 const (
@@ -84,6 +92,9 @@ type Op struct {
 	// proof
 	Proof  int
 	PA, PB int
+	// perturbations of an update: the caller's context and a storage fault during the call
+	Ctx   int // ctxLive / ctxCancelled / ctxExpired
+	Fault int // faultNone / faultCommit / faultExec / faultQuery / faultBegin (first such call of the update)
 	// cosignature tamper selection and assorted salt
 	Tamper int
 	Salt   int
@@ -173,6 +184,12 @@ func genUpdate(t *rapid.T, o *Op) {
 	o.Proof = biased(t, nProofKinds, 6, "proof")
 	o.PA = rapid.IntRange(0, 40).Draw(t, "pa")
 	o.PB = rapid.IntRange(0, 300).Draw(t, "pb")
+	// perturbations hit otherwise good and otherwise bad updates alike
+	if rapid.IntRange(0, 11).Draw(t, "deadCtx?") == 0 {
+		o.Ctx = rapid.IntRange(ctxCancelled, ctxExpired).Draw(t, "deadCtx")
+	} else if rapid.IntRange(0, 9).Draw(t, "fault?") == 0 {
+		o.Fault = rapid.IntRange(faultCommit, nFaults-1).Draw(t, "fault")
+	}
 	if rapid.IntRange(0, 9).Draw(t, "crossLogPreset") == 0 {
 		// the very bytes another log's update was accepted with, now addressed to this log (before or
 		// after it holds something); any proof kind
@@ -423,7 +440,11 @@ func checkSeq(t *testing.T, c SeqCase) harness.Verdict {
 	for _, k := range c.Logs {
 		logs = append(logs, newLogID(k.key()))
 	}
-	s, err := newSUT(logs, c.Witness.key(), c.MaxConns, c.HTTP)
+	faults := false
+	for _, o := range c.Ops {
+		faults = faults || (o.Kind == opUpdate && o.Fault != faultNone)
+	}
+	s, err := newSUT(logs, c.Witness.key(), c.MaxConns, c.HTTP, faults)
 	if err != nil {
 		v.Failf("setup", "cannot build the witness: %v", err)
 		return v
@@ -629,11 +650,49 @@ func checkSeq(t *testing.T, c SeqCase) harness.Verdict {
 			if cd.idOK && cd.sigValid && o.ReqID == reqKnown {
 				class("log-id-field:" + []string{"absent", "right", "all-zero", "wrong", "other-log"}[cd.idMode])
 			}
-			r := s.update(id, cd.raw, proof)
+			// perturbations: a dead caller context, a storage fault. Whatever the witness answers then,
+			// the held STH changes only if the model accepts the update, and a success answer is what
+			// GetSTH serves afterwards. perturbed = the update may legitimately fail for that reason.
+			ctx, cancel := context.Background(), context.CancelFunc(func() {})
+			switch o.Ctx {
+			case ctxCancelled:
+				ctx, cancel = context.WithCancel(ctx)
+				cancel()
+				class("ctx:cancelled")
+			case ctxExpired:
+				ctx, cancel = context.WithDeadline(ctx, time.Unix(1, 0))
+				class("ctx:expired")
+			}
+			armed := o.Fault != faultNone && s.plan != nil
+			if armed {
+				s.plan.arm(o.Fault)
+			}
+			r := s.updateCtx(ctx, id, cd.raw, proof)
+			cancel()
+			perturbed := o.Ctx != ctxLive
+			if armed && s.plan.disarm() {
+				perturbed = true
+				class("fault:" + faultNames[o.Fault] + "(fired)")
+			}
+			if perturbed {
+				switch {
+				case r.ok:
+					class("perturbed:success")
+				case exp == expTOFU || exp == expAccept || exp == expReplay:
+					class("perturbed:good-update-failed")
+				default:
+					class("perturbed:bad-update-refused")
+				}
+			}
 			why := "refused-update-changed-state"
 			switch exp {
 			case expTOFU, expAccept:
 				why = "accepted-update-not-stored"
+				if !r.ok && perturbed {
+					refused++
+					why = "failed-update-changed-state"
+					break
+				}
 				if !r.ok {
 					v.Failf("valid-update-refused", "step %d: %s: update of log %d to tree %d size %d (held %d, proof %s, %d nodes) refused: %s", step, exp, li, ti, n, hs, proofNames[o.Proof], len(proof), r.note)
 					break
@@ -646,6 +705,9 @@ func checkSeq(t *testing.T, c SeqCase) harness.Verdict {
 				}
 			case expReplay:
 				why = "replay-changed-state"
+				if !r.ok && perturbed {
+					break
+				}
 				if !r.ok {
 					v.Failf("replay-of-held-refused", "step %d: update of log %d with the held tree head (size %d, same root) answered with an error: %s", step, li, n, r.note)
 					break
@@ -662,7 +724,7 @@ func checkSeq(t *testing.T, c SeqCase) harness.Verdict {
 					v.Failf("accepted-"+exp[len("refuse-"):], "step %d: update of log %d (request id %q) to tree %d size %d (held %d, proof %s, sign mode %d, id field %d) succeeded: %q", step, li, id, ti, n, hs, proofNames[o.Proof], o.Sign, o.IDField, r.body)
 					break
 				}
-				if exp == expStale || exp == expConflict || exp == expInconsistent {
+				if (exp == expStale || exp == expConflict || exp == expInconsistent) && !perturbed {
 					if !bytes.Equal(r.body, h.raw) {
 						v.Failf("refusal-without-held-sth", "step %d: %s on log %d answered %q (%s), want the held raw STH %q", step, exp, li, r.body, r.note, h.raw)
 					}
